@@ -7,7 +7,7 @@ export GOFLAGS=-mod=mod GOPROXY=off GOSUMDB=off GOTOOLCHAIN=local
 SEED=$1; DEMODIR=$2; shift 2
 WT=/tmp/tryseed.$$
 git -C /repo worktree add -q $WT HEAD || exit 2
-cleanup() { git -C /repo worktree remove --force $WT; }
+cleanup() { git -C /repo worktree remove --force $WT; sfx=$(echo $WT | tr "/" "_"); rm -rf /verif/work/*$sfx /verif/work/alt$sfx.* /verif/bin/*$sfx; }
 trap cleanup EXIT
 cd $WT
 # demo on the clean tree
